@@ -252,7 +252,7 @@ HARNESSES = {'roundtrip': h_roundtrip, 'parser_symbolic_ids': h_parser_symbolic_
 
 def jobs(tier):
     out = []
-    shapes = [(2, 2), (1, 2), (2, 1)] if tier == 'quick' else [(2, 2), (1, 2), (2, 1), (2, 3), (3, 2), (1, 1)]
+    shapes = [(2, 2), (1, 2), (2, 1), (2, 3)] if tier == 'quick' else [(2, 2), (1, 2), (2, 1), (2, 3), (3, 2), (1, 1)]
     for nr, nc in shapes:
         for idk in ID_MENUS:
             for md in (False, True):
